@@ -205,8 +205,10 @@ func findFunctionCallViolation(
 			}
 		}
 
-		// Check if it's a method call (obj.Method)
-		typeInfo := util.ExtractTypeInfo(ctx.pass.TypesInfo.TypeOf(fun.X))
+		// Check if it's a method call (obj.Method): the method belongs to the type that
+		// declares it, which for a method promoted through an embedded field is not
+		// the type of obj
+		typeInfo := util.ExtractTypeInfo(methodReceiverType(ctx, fun))
 		if typeInfo != nil {
 			methodName := fun.Sel.Name
 			if ctx.testOnlyMethods.Match(typeInfo.PkgPath, methodName, typeInfo.TypeName) {
@@ -222,6 +224,20 @@ func findFunctionCallViolation(
 		}
 	}
 	return nil
+}
+
+// methodReceiverType returns the receiver type of the method a selector expression
+// calls (the type the method is declared on), or the type of the selector's operand
+// if the selection is not known
+func methodReceiverType(ctx *testOnlyContext, sel *ast.SelectorExpr) types.Type {
+	if selection := ctx.pass.TypesInfo.Selections[sel]; selection != nil {
+		if fn, ok := selection.Obj().(*types.Func); ok {
+			if sig, ok := fn.Type().(*types.Signature); ok && sig.Recv() != nil {
+				return sig.Recv().Type()
+			}
+		}
+	}
+	return ctx.pass.TypesInfo.TypeOf(sel.X)
 }
 
 // packageLevelFuncPkg returns the import path of the package declaring the package-level
